@@ -413,7 +413,8 @@ func (its *listSnapshot) validateGetRange(pos int, numOfNodes int) errors.OrdaEr
 	if numOfNodes < 1 {
 		return errors.DatatypeIllegalParameters.New(its.L(), "numOfNodes should be more than 0")
 	}
-	if its.size-1 < pos || pos+numOfNodes > its.size {
+	// (numOfNodes is compared with what is left behind pos: pos+numOfNodes wraps around for a huge numOfNodes)
+	if its.size-1 < pos || numOfNodes > its.size-pos {
 		return errors.DatatypeIllegalParameters.New(its.L(), "out of bound index")
 	}
 	return nil
